@@ -52,6 +52,9 @@ func run(c *hc.Ctx) {
 	if want("xmono") {
 		oracleXMonotone(c)
 	}
+	if want("struct") {
+		oracleStructure(c)
+	}
 }
 
 var tolerances = []float64{1, 0.1, 0.01, 1e-4}
@@ -488,6 +491,161 @@ func corrSig(c *hc.Ctx) {
 		c.Case("SIG "+cmdTokens(in), "~", sigTokens(signature(out)))
 		c.Count(fmt.Sprintf("sig:subpaths=%d", len(signature(in))))
 		c.Distinct(p.String())
+	}
+}
+
+// ---- structure at large coordinates ---------------------------------------------------------------
+
+// genBigArcPath: rotated non-circular arcs with coordinates of magnitude 1e3..1e6 (where the end point
+// recomputed from the centre parametrisation misses the stored end point by more than Epsilon), each
+// followed by further commands, mostly closed, one to three subpaths.
+func genBigArcPath(c *hc.Ctx) (*canvas.Path, float64) {
+	mag := []float64{1e3, 1e4, 1e5, 1e6}[c.Intn(4)]
+	if c.Chance(0.15) {
+		mag = 500 // integer parameters below 500, as in everyday page coordinates
+	}
+	co := func() float64 {
+		if c.Bool() {
+			return math.Round(c.Range(-1, 1) * mag)
+		}
+		return c.Range(-1, 1) * mag
+	}
+	p := &canvas.Path{}
+	ns := 1 + c.Intn(3)
+	for s := 0; s < ns; s++ {
+		p.MoveTo(co(), co())
+		if c.Chance(0.3) {
+			p.LineTo(co(), co())
+		}
+		narc := 1 + c.Intn(2)
+		for a := 0; a < narc; a++ {
+			rx := math.Abs(co()) + mag/100
+			ry := rx * c.Range(0.05, 0.95)
+			rot := float64(c.Intn(12))*15 + c.Range(0, 15)*float64(c.Intn(2))
+			p.ArcTo(rx, ry, rot, c.Bool(), c.Bool(), co(), co())
+			switch c.Intn(5) {
+			case 0:
+				p.LineTo(co(), co())
+			case 1:
+				p.QuadTo(co(), co(), co(), co())
+			case 2:
+				p.CubeTo(co(), co(), co(), co(), co(), co())
+			case 3:
+				end := p.Pos()
+				p.LineTo(end.X+7, end.Y+13) // a short line right after the arc
+			}
+		}
+		if c.Chance(0.75) {
+			p.Close()
+		}
+	}
+	return p, mag
+}
+
+// structureOf judges the clause "same subpaths, same start and end points, same open/closed status":
+// subpath count, per subpath start / end point within tol and closedness, every Close returning to the
+// start of ITS OWN subpath, and no stray MoveTo (a subpath consisting of a MoveTo only that the input
+// does not have). Returns "" when the structure is preserved.
+func structureOf(in, out []hc.Seg, tol float64) string {
+	si, so := signature(in), signature(out)
+	if len(si) != len(so) {
+		return fmt.Sprintf("%d subpaths became %d", len(si), len(so))
+	}
+	for i := range si {
+		switch {
+		case si[i].closed != so[i].closed:
+			return fmt.Sprintf("subpath %d: closed %v became %v", i, si[i].closed, so[i].closed)
+		case si[i].start.Dist(so[i].start) > tol:
+			return fmt.Sprintf("subpath %d: start %v became %v", i, si[i].start, so[i].start)
+		case si[i].last.Dist(so[i].last) > tol:
+			return fmt.Sprintf("subpath %d: end %v became %v", i, si[i].last, so[i].last)
+		}
+	}
+	for k, sub := range hc.Subpaths(out) {
+		for _, s := range sub {
+			if s.Kind == 'Z' && s.End.Dist(sub[0].End) > tol {
+				return fmt.Sprintf("subpath %d: Close goes to %v, the subpath starts at %v", k, s.End, sub[0].End)
+			}
+		}
+		// consecutive segments are connected by construction of Decode; a jump can only be a MoveTo, i.e. a
+		// new subpath, which the count above has excluded
+	}
+	return ""
+}
+
+func oracleStructure(c *hc.Ctx) {
+	// the inputs of the seeded defect report (integer parameters below 500) and generated paths
+	fixed := []string{
+		"M6 91A6 41 15 0 1 9 57L16 70z", "M471 51A334 36 0 0 0 135 15L142 28z", "M20 66A483 204 30 1 1 343 488L350 501z",
+		"M138 205A184 98 60 1 1 189 473L196 486z", "M28 150A110 244 60 0 1 73 20L80 33z", "M295 43A324 420 75 1 0 300 152L307 165z",
+	}
+	for it := 0; it < len(fixed)+2*c.N; it++ {
+		var p *canvas.Path
+		mag := 500.0
+		if it < len(fixed) {
+			p = canvas.MustParseSVGPath(fixed[it])
+		} else {
+			p, mag = genBigArcPath(c)
+		}
+		in, err := hc.Decode(p.Data())
+		if err != nil || len(in) < 2 {
+			c.Count("struct-skip-degenerate-input")
+			continue
+		}
+		scale := scaleOf(in)
+		tol := 1e-9*scale + 2e-10
+		fam := fmt.Sprintf("struct:mag=%g", mag)
+		// how far do the arcs' recomputed end points miss the stored ones (what the bridging LineTo is for)?
+		gapClass := "gap<=1e-10"
+		if d, err := hc.Decode(p.ReplaceArcs().Data()); err == nil {
+			for i := 0; i+1 < len(d); i++ {
+				if d[i].Kind == 'C' && d[i+1].Kind == 'L' && d[i].End.Dist(d[i+1].End) < 1e-6*scale && d[i].End.Dist(d[i+1].End) > 0 {
+					gapClass = "gap>1e-10"
+				}
+			}
+		}
+		c.Count(fam + ":" + gapClass)
+		ftol := genTol(c) * mag / 100
+		ops := []struct {
+			name string
+			f    func() *canvas.Path
+		}{
+			{"Flatten", func() *canvas.Path { return p.Flatten(ftol) }},
+			{"ReplaceArcs", func() *canvas.Path { return p.ReplaceArcs() }},
+			{"XMonotone", func() *canvas.Path { return p.XMonotone() }},
+		}
+		for _, op := range ops {
+			c.Evals++
+			var q *canvas.Path
+			replay := map[string]any{"path": p.String(), "data": hc.DataHex(p.Data()), "op": op.name, "tol": ftol, "family": fam}
+			if msg := hc.Try(func() { q = op.f() }); msg != "" {
+				c.Fail("panic", op.name+" panicked: "+msg, replay)
+				continue
+			}
+			out, err := hc.Decode(q.Data())
+			if err != nil {
+				c.Fail("malformed-output", op.name+": "+err.Error(), replay)
+				continue
+			}
+			outs := q.String()
+			if len(outs) > 300 {
+				outs = outs[:300] + "…"
+			}
+			replay["out"] = outs
+			if msg := structureOf(in, out, tol); msg != "" {
+				c.Fail("replace-structure:"+op.name, op.name+" changed the subpath structure: "+msg, replay)
+				continue
+			}
+			c.Count("struct-ok:" + op.name)
+		}
+		c.Distinct(p.String())
+		// the same inputs through the signature correspondence with the Lean splice model
+		if q := p.Flatten(ftol); true {
+			if out, err := hc.Decode(q.Data()); err == nil {
+				c.Case("SIG "+cmdTokens(in), "~", sigTokens(signature(out)))
+				c.Count("sig:bigarc")
+			}
+		}
 	}
 }
 
